@@ -12,11 +12,15 @@ RULE = ('closed loops with 3..40 vertices (convex, star, rectilinear, L/U, quads
         'hole outlines), points on edge prolongations, points whose internal ray is aimed at a vertex or runs along the first edge, points near '
         'the midpoint of the first edge, off-plane points (1e-6..1), points on either side of the 1e-7 coplanarity gate and of the 1e-5 on-edge '
         'product threshold; every answer (Ok false / Ok true / Err class / panic) compared with the model; '
-        'non-trivial = closed subject with >= 10 queries; distinct = distinct (vertices, queries)')
+        'non-trivial = closed subject with >= 10 queries; distinct = distinct (vertices, queries); thorough tier: also 400 subjects of the f32 build (correspondence only, no oracle)')
 ASSUMPTIONS = [
     'Coq 8.16.1 kernel + vm_compute; theorems over the real-number instance of the model (exact tier)',
     'model = code: Loop3D::test_point / Polygon3D::test_point compared answer by answer (bit-exact inputs, exact outcome class)',
     'float vs exact evaluation away from the tolerance bands is sampled by the exact-rational winding-number oracle, not proved',
+    'f32 build (thorough tier): the same runner text instantiated on the binary32 instance (module C05f32 of Run/C05.v on NumF32fast, proved equal to the '
+    'Flocq-rounded NumF32 in Run/FastNum32Proof.v) against the harness built with --features float, bit for bit; the f32 generator draws 75% coordinate planes, offsets to 8 '
+    '(finding F15: the absolute 1e-7 coplanarity tolerance refuses oblique f32 outlines; refusals are reproduced by the model); CORRESPONDENCE ONLY: the exact-rational '
+    'oracle does not judge f32 cases',
     'exact-tier theorems assume an exactly planar loop and query point; the hypotheses they are forced to add (generic ray, point not within the '
     'on-edge shortcut) are recorded as known findings; the former length hypothesis (finding C05:ray-too-short) is discharged for the live code '
     '(fix 6f318c4) and kept on record for the code before the fix (C05_pinned_* about Model/PinnedLoop.v)',
@@ -28,7 +32,12 @@ THEOREMS = ['C05_open_loop_is_error', 'C05_off_plane_is_outside', 'C05_polygon_i
 def streams(tier):
     if tier == 'quick': return [Stream('C05', 150)]
     if tier == 'search': return [Stream('C05', 500)]
-    return [Stream('C05', 1500), Stream('C05', 500, release=True)]
+    # f32 build (thorough tier): correspondence only, the oracle does not judge f32 cases
+    return [Stream('C05', 1500), Stream('C05', 500, release=True), Stream('C05', 400, f32=True)]
+
+def is_f32(c, st=None):
+    """cases of the f32 build carry "f32": true (harness/src/loops.rs); the stream flag says the same"""
+    return bool(c.get('f32') or (st is not None and getattr(st, 'f32', False)))
 
 def fls(bits, st):
     fm = Fmt(st.f32 if st is not None else False)
@@ -36,7 +45,7 @@ def fls(bits, st):
 
 def classify(c, st):
     key = (tuple(c['outer']['v']), tuple(tuple(q['p']) for q in c['queries']))
-    return key, (not c['outer']['closed']) or len(c['queries']) < 10, c['note'].split(':')[0]
+    return key, (not c['outer']['closed']) or len(c['queries']) < 10, ('f32:' + c['note'].split(':')[-1] + ':' if is_f32(c, st) else '') + c['note'].split(':')[0]
 
 def describe(c, st):
     return dict(note=c['note'], outer_vertices=len(c['outer']['v']) // 3, holes=[len(h['v']) // 3 for h in c['holes']],
@@ -193,6 +202,8 @@ def judge(c, st):
     return out
 
 def oracle(c, st):
+    # f32 build: correspondence only (T5 / H_IN / H_OUT above are margins around binary64 rounding)
+    if is_f32(c, st): return None
     fs = judge(c, st)
     if not fs: return None
     return min(fs, key=lambda f: ORDER.index(f[0]))
